@@ -12,6 +12,17 @@ func registerMisc(vm *VM) {
 		if !ok || ifc.T == nil {
 			return Tuple{&JSONBlob{}, Iface{}}
 		}
+		// a plain Go string (no MarshalJSON method on its type): the exact text encoding
+		if b, isB := ifc.T.Underlying().(*types.Basic); isB && b.Info()&types.IsString != 0 && !vm.hasMethod(ifc.T, "MarshalJSON") && !vm.hasMethod(ifc.T, "MarshalText") {
+			switch ifc.V.(type) {
+			case string, *SymStr:
+				q := vm.jsonQuote(ifc.V)
+				if hasDec(atomsOf(q)) {
+					return Tuple{&SymBytes{S: q}, Iface{}}
+				}
+				return Tuple{Slice(strBytes(q)), Iface{}}
+			}
+		}
 		return Tuple{&JSONBlob{T: ifc.T, V: copyVal(ifc.V)}, Iface{}}
 	}
 	I["encoding/json.Unmarshal"] = func(vm *VM, _ *frame, a []Value) Value {
@@ -82,3 +93,13 @@ func registerMisc(vm *VM) {
 	}
 }
 
+
+func (vm *VM) hasMethod(t types.Type, name string) bool {
+	ms := vm.Prog.MethodSets.MethodSet(t)
+	for i := 0; i < ms.Len(); i++ {
+		if ms.At(i).Obj().Name() == name {
+			return true
+		}
+	}
+	return false
+}
